@@ -20,7 +20,7 @@ pub fn prop() -> Prop {
                Phase 4 (also the Miri/TSan workload): the devices driven directly through ExternalDevice with a contending thread. Non-trivial = run in which a lock was held during at least one step; distinct = (program, input, hold pattern).",
         assumptions: &["the simulator never blocks on the buffer locks (try_write), so boundary-granular hold patterns cover every interleaving a second thread can produce with respect to simulator instructions", "programs wait for KBSR/DSR readiness through the OS traps"],
         exhaustive: never, run, guard,
-        stages: || vec![st("miri", "4", 4, 4, 600), st("miri", "3", 1, 1, 900), st("tsan", "3,4", 60, 4, 900)],
+        stages: || vec![st("miri", "4", 4, 4, 420), st("miri", "3", 1, 1, 600), st("tsan", "3,4", 60, 4, 600)],
         level_text: "Fault enumeration over lock-hold schedules at run time: exhaustive single hold windows and (thorough) exhaustive pairs on short inputs, random patterns on long inputs, plus real-thread stress; an exactly-once/in-order stream oracle with divergence classification.",
         level_note: "The two known findings (byte dropped when the lock covers the DDR store; stale byte when it covers the KBDR load) are reported as KNOWN-FINDING; any other divergence fails the check.",
         technique: "deterministic schedule injection at instruction boundaries + exactly-once stream monitor; real-thread stress under Miri/TSan as supplementary oracle",
